@@ -240,6 +240,13 @@ impl AsyncWrite for Carrier {
     }
 }
 
+/// remember the genuine body of an item whose body is about to be modified
+fn touch(it: &mut (Vec<u8>, Option<usize>, Option<Vec<u8>>)) {
+    if it.2.is_none() {
+        it.2 = Some(it.0[2..].to_vec());
+    }
+}
+
 /// position-dependent content of the plaintext stream of direction d
 fn pat(d: usize, i: usize) -> u8 {
     let x = (i as u64).wrapping_mul(0x9E37_79B9_7F4A_7C15);
@@ -642,14 +649,15 @@ impl<'a> Run<'a> {
         let mut sh = self.sh.borrow_mut();
         let dir = &mut sh.dir[d];
         let rec = std::mem::take(&mut dir.written);
-        let mut items: Vec<(Vec<u8>, Option<usize>)> = Vec::new();
+        // (bytes, index of the genuine frame, the genuine body once the model counts the body as modified)
+        let mut items: Vec<(Vec<u8>, Option<usize>, Option<Vec<u8>>)> = Vec::new();
         let mut p = 0usize;
         while p + 2 <= rec.len() {
             let h = ((rec[p] as usize) << 8) | rec[p + 1] as usize;
             if p + 2 + h > rec.len() {
                 break;
             }
-            items.push((rec[p..p + 2 + h].to_vec(), Some(dir.nframes + items.len())));
+            items.push((rec[p..p + 2 + h].to_vec(), Some(dir.nframes + items.len()), None));
             p += 2 + h;
         }
         dir.written = rec[p..].to_vec();
@@ -673,6 +681,9 @@ impl<'a> Run<'a> {
                 1 => {
                     let m = (tc & 0xff) as u8;
                     if i < items.len() && m != 0 && j < items[i].0.len() {
+                        if j >= 2 {
+                            touch(&mut items[i]);
+                        }
                         items[i].0[j] ^= m;
                     }
                 }
@@ -713,20 +724,21 @@ impl<'a> Run<'a> {
                     let mut v = vec![(h >> 8) as u8, (h & 0xff) as u8];
                     v.extend((0..bl).map(|_| rng.next() as u8));
                     let at = i.min(items.len());
-                    items.insert(at, (v, None));
+                    items.insert(at, (v, None, None));
                 }
                 9 => {
                     if i < items.len() {
                         // strictly inside the body (never at its end: the first `header` bytes would
                         // still be the ciphertext)
                         let bl = items[i].0.len() - 2;
+                        touch(&mut items[i]);
                         items[i].0.insert(2 + bl / 2, rng.next() as u8);
                     }
                 }
                 10 => {
                     if i < items.len() && items[i].0.len() > 2 {
-                        let bl = items[i].0.len() - 2;
-                        items[i].0.remove(2 + bl / 2);
+                        touch(&mut items[i]);
+                        items[i].0.remove(2);
                     }
                 }
                 11 => {
@@ -734,11 +746,23 @@ impl<'a> Run<'a> {
                         let bl = items[i].0.len() - 2;
                         let nonce = items[i].1.unwrap_or(i);
                         let body = self.foreign_body(nonce, bl, &mut rng);
+                        touch(&mut items[i]);
                         items[i].0.truncate(2);
                         items[i].0.extend(body);
                     }
                 }
                 _ => {}
+            }
+            // the model counts a modified body as "not a ciphertext" for good; two manipulations
+            // that undo each other (the same flip twice, a byte inserted and removed again) must
+            // therefore not give the genuine body back
+            for it in items.iter_mut() {
+                if let Some(orig) = &it.2 {
+                    if it.0.len() > 2 && it.0[2..] == orig[..] {
+                        let last = it.0.len() - 1;
+                        it.0[last] ^= 1;
+                    }
+                }
             }
         }
         let fresh: Vec<u8> = items.iter().flat_map(|it| it.0.iter().copied()).collect();
